@@ -5,6 +5,7 @@ import (
 	"sort"
 	"strings"
 
+	"github.com/pentops/j5/lib/verifshim/cmpb"
 	"google.golang.org/protobuf/reflect/protoreflect"
 	"verifharness/vh"
 )
@@ -143,6 +144,7 @@ type declObs struct {
 	Imports []string
 	Exts    []string
 	ErrText string
+	Pos     []cmpb.Pos
 }
 
 // observeDecl compiles the one-declaration file and collects, from the file at `path`, the imports
@@ -157,6 +159,7 @@ func observeDecl(text, path string) declObs {
 		o.Verdict, o.ErrText = "VPanic", fmt.Sprint(c.Panic)
 	case c.Err != nil:
 		o.ErrText = c.Err.Error()
+		o.Pos = cmpb.Positions(c.Err)
 		switch {
 		case strings.Contains(o.ErrText, "convertJ5File"):
 			o.Verdict = "VConvErr"
